@@ -93,10 +93,16 @@ class Verb:
 class Eq:
     """lhs: Term (kind 'v'); ctx: expression over PH0..; leaves: list of Term/Lit/Verb."""
 
-    def __init__(self, lhs, ctx, leaves):
+    def __init__(self, lhs, ctx, leaves, raw=False):
         self.lhs, self.leaves = lhs, list(leaves)
         self.tree = ast.parse(ctx, mode='eval')
-        self.ctx = ast.unparse(self.tree)
+        # raw: keep the context exactly as spelled (redundant parentheses, blanks before a call's bracket, no blanks around
+        # operators); the reference still compiles the same text, so its meaning is CPython's
+        self.ctx = ctx if raw else ast.unparse(self.tree)
+        self.normal_ctx = ast.unparse(self.tree)
+
+    def normal_text(self):
+        return '%s = %s' % (self.lhs.text(), _PH.sub(lambda m: self.leaves[int(m.group(1))].text(), self.normal_ctx))
 
     def rhs_text(self):
         return _PH.sub(lambda m: self.leaves[int(m.group(1))].text(), self.ctx)
@@ -136,6 +142,9 @@ class Program:
 
     def script(self):
         return '\n'.join(e.text() for e in self.eqs)
+
+    def normal_script(self):
+        return '\n'.join(e.normal_text() for e in self.eqs)
 
     # ---- reference facts, derived from the generator's own data (never from fsic)
     def names_in_order(self):
@@ -188,7 +197,7 @@ class Program:
 
 # --------------------------------------------------------------------------- alphabets
 
-S1_NAMES = ['X', 'x1', '_u', 'is_open', 'Pin', 'not_X', 't', 'exp', 'max', 'log', 'self', 'np', 'e5', 'in_', 'Ta', 'if_', 'lambda_x', 'X_1_', 'abs', '_g_', '__c_', '_', '__x__', 'x__']
+S1_NAMES = ['X', 'IS', 'Not', 'none', 'TRUE', 'x1', '_u', 'is_open', 'Pin', 'not_X', 't', 'exp', 'max', 'log', 'self', 'np', 'e5', 'in_', 'Ta', 'if_', 'lambda_x', 'X_1_', 'abs', '_g_', '__c_', '_', '__x__', 'x__']
 S1_KINDS = [('v', False), ('p', False), ('e', False), ('p', True), ('e', True)]
 S1_IDX = [(0, 'none'), (0, 'plain'), (-1, 'plain'), (-2, 'spaced'), (1, 'plus'), (1, 'plain'), (-10, 'plain'), (3, 'lspace'), (2, 'rspace')]
 S1_CTX = ['PH0', '2 * PH0 - 1', '-PH0 ** 2', 'max(PH0, 0) + exp(PH0)', 'PH0 if PH0 > 0 else -PH0']
@@ -275,6 +284,33 @@ def s2():
             if _lit(l1) or (_lit(l0) and _lit(l2)):
                 continue
             yield Program([Eq(lhs, ctx, [l0, l1, l2])], 'S2-triple')
+
+
+SL_CTX = [
+    # a right-hand side that begins with one bracketed group and ends with another
+    '(PH0 + PH1) * (PH2 + PH3)', '(PH0 + PH1) / (PH2 - PH3)', '(PH0) + (PH1)', '(PH0) * PH1 + (PH2)', '((PH0) + (PH1))', '(PH0 + PH1)', '((PH0 + PH1))',
+    '(PH0 + PH1) * PH2', 'PH0 * (PH1 + PH2)', '(PH0 - PH1) - (PH2 - PH3) - (PH0)', '(-PH0) ** (PH1)', '(PH0, PH1)[0] + (PH2)', '[PH0, PH1][1] * (PH2)',
+    'max(PH0, PH1) + (PH2)', '(PH0) + max(PH1, PH2)', 'exp(PH0) * (PH1)', '(PH0) if (PH1) > 0 else (PH2)',
+    # blanks between a function name and its bracket, around arguments; no blanks around operators
+    'log (PH0)', 'exp  (PH0)', 'exp\t(PH0)', 'max (PH0, PH1)', 'min  (PH0, PH1)', 'abs (PH0)', 'np.sqrt (PH0)', 'float (PH0)', 'np.maximum (PH0, PH1)',
+    'exp( PH0 )', 'max(PH0,PH1)', 'max( PH0 , PH1 )', 'exp (log (PH0))', 'max (PH0, min (PH1, PH2))', '2 * log (PH0) + exp (PH1)',
+    'PH0*PH1', 'PH0**-PH1', 'PH0-PH1', 'PH0 +  PH1', '-(PH0)', 'PH0+PH1*PH2', 'PH0/PH1-PH2', 'PH0<PH1', 'PH0 if PH1>0 else PH2', '2*PH0', 'PH0*2', '2.*PH0', 'PH0**2',
+]
+SL_LEAVES = [
+    [Term('X'), Term('Z', 'v', -1), Term('a', 'p'), Term('e', 'e', 1, 'plus')],
+    [Term('A'), Term('B'), Term('C'), Term('D')],
+    [Term('a', 'p'), Term('X', 'v', -2), Term('X'), Term('W', 'v', 1)],
+    [Term('log_x'), Term('exp1', 'v', -1), Term('max_', 'p'), Term('e', 'e')],
+]
+
+
+def sl():
+    """Spelling-sensitive programs: contexts kept exactly as written."""
+    for ctx in SL_CTX:
+        k = 1 + max(int(m) for m in _PH.findall(ctx))
+        for leaves in SL_LEAVES:
+            for rot in range(len(leaves)):
+                yield Program([Eq(Term('Y'), ctx, (leaves[rot:] + leaves[:rot])[:k], raw=True)], 'SL')
 
 
 S3_LEAVES = [Term('X'), Term('Y', 'v', -1), Term('a', 'p'), Lit('2')]
